@@ -1,4 +1,4 @@
 SPECIFICATION Spec
-INVARIANTS RowsOK ErrorOnceThenEOF NothingLeftOpen
+INVARIANTS RowsOK ErrorOnceThenEOF NothingLeftOpen NoRequestOnADeadScanner
 POSTCONDITION Accepted
 CHECK_DEADLOCK FALSE
